@@ -8,46 +8,68 @@ LEVEL = "proof"
 MANIFEST = {
     "technique": "Coq proof over a hand-written Gallina model of the init-segment building API (state machine over "
                  "CreateEmptyInit / AddEmptyTrack / Set...Descriptor), of the avcC/hvcC decoder configuration record codecs "
-                 "(byte level) and of the whole init-segment tree in the C01 box model + differential correspondence "
-                 "(extracted OCaml vs Go: states, records, the bytes of InitSegment.Encode) + property search on the real API "
+                 "(byte level) and of the whole init-segment tree in the C01 box model, composed with C05's fragment theorems "
+                 "(fragments decode against the decoded init), C15's SPS parser theorems (dimensions = cropped picture size) and "
+                 "C18's AudioSpecificConfig codec (typed esds) + differential correspondence "
+                 "(extracted OCaml vs Go: states, records, the bytes of InitSegment.Encode, GetTrex on the decoded init, the parser "
+                 "models) + property search on the real API "
                  "(invariant, every configuration field vs the values the parameter sets were generated from, encode/decode round "
-                 "trip, fragment decode) with parameter sets generated over the whole SPS/PPS syntax by C15's extracted serialisers",
+                 "trip, generated fragment histories per track decoded against the init) with parameter sets generated over the "
+                 "whole SPS/PPS syntax by C15's extracted serialisers",
     "level_text": "Theorems (coq/c19/C19Theorems.v), for every op sequence of fewer than 2^32-1 calls and every SPS parser: "
                   "moov children are mvhd, mvex and the contiguous traks in Traks order, track ids are exactly 1..n, one trex per "
                   "track with the same id in the same order, next-track id above every id (C19_inv, also after errors and a panic), "
                   "ids unique and a trex found for every track (C19_trex_lookup), every sample entry has data reference index 1 "
                   "(C19_dref); for in-scope arguments no panic, next-track id = n+1, handler type / media header / language / "
                   "timescale / volume of every track equal to the specification table (C19_tracks); each successful "
-                  "Set...Descriptor call adds exactly one sample entry carrying the supplied parameter sets / configuration and the "
-                  "parser's dimensions (C19_descriptor_*; AAC AudioSpecificConfig read back over a complete finite domain); elng "
+                  "Set...Descriptor call adds exactly one sample entry carrying the supplied parameter sets / configuration "
+                  "(C19_descriptor_*); DIMENSIONS stated without reference to a parser's answer: with C15's models of "
+                  "avc/hevc.ParseSPSNALUnit as the parsers, for EVERY valid SPS field assignment (all profiles, chroma formats, field "
+                  "coding, cropping, any VUI incl. any sample aspect ratio) the entry's width/height are the CROPPED picture size of the "
+                  "field values mod 2^16 and tkhd holds it in 16.16 (C19_descriptor_avc_dims, C19_descriptor_hevc_dims: a descriptor "
+                  "scaling the width by the SAR falsifies them); AAC: C19_descriptor_aac_typed, general in the frequency (f < 2^23): "
+                  "the entry is mp4a{esds} with the whole descriptor tree TYPED, it prints and parses back in the box model, and the "
+                  "DecConfig bytes inside its DecSpecificInfo are what C18's AudioSpecificConfig encoder writes for, and C18's decoder "
+                  "reads back as, the configuration supplied (object type, frequency, channels, extension frequency, SBR/PS); "
+                  "C19_box_roundtrip_esds for any configuration of <= 100 bytes; elng "
                   "round trip with the exact two-byte boundary. Codec configuration at byte level, ALL profile values: avc.DecConfRec "
                   "and hevc.DecConfRec write exactly Size() bytes (C19_avcrec_size, C19_hvcrec_size, every record) and decode after "
                   "encoding to the canonical record / to themselves for every in-range record (C19_avcrec_roundtrip, "
-                  "C19_avcrec_roundtrip_exact: trailing chroma/bit-depth info for every profile except 66/77/88; C19_hvcrec_roundtrip: "
-                  "all 17 fields and every NAL unit array); the record put into the sample entry by a successful Set{AVC,HEVC}Descriptor "
-                  "is the one derived from the SPS and survives encode -> decode (C19_descriptor_avc_record, C19_descriptor_hevc_record). "
+                  "C19_avcrec_roundtrip_exact, C19_hvcrec_roundtrip); the record put into the sample entry by a successful "
+                  "Set{AVC,HEVC}Descriptor is the one derived from the SPS and survives encode -> decode (C19_descriptor_avc_record, "
+                  "C19_descriptor_hevc_record). "
                   "Whole init in the C01 box model (a frozen copy, coq/c19/C19BoxCodec.v + C19BoxModel.v = C01Codec/C01Model at /verif commit "
-                  "c35b7dd, so that concurrent extensions of C01 cannot turn C19 red) (tree_of: every box the constructors build, with C01's leaf/container constructors; its "
-                  "encoding is compared byte for byte with the real InitSegment.Encode): C19_roundtrip is now PROVED there for every "
+                  "88f92e5 -- second snapshot: typed esds/hvcC/uuid/sgpd, hdlr Size and senc as repaired in /repo -- so that concurrent "
+                  "extensions of C01 cannot turn C19 red): C19_roundtrip is PROVED there for every "
                   "op sequence and every SPS parser: if the final state's values fit their fields (args_okb; by C19_args_ok / "
                   "C19_roundtrip_inputs this follows from hypotheses on the call arguments: 32-bit timescales, language tags of 3 bytes or "
-                  ">= 2 non-NUL bytes, parameter-set lists fitting the records, parsers answering in the ranges of their Go types) and the "
+                  ">= 2 non-NUL bytes, parameter-set lists fitting the records, non-negative int AAC frequencies, parsers answering in "
+                  "the ranges of their Go types) and the "
                   "sizes fit 32 bits (enc_fits), C01's decoder applied to C01's encoding returns a tree EQUAL to the one encoded, the decoded file passes "
-                  "File.AddChild's fragmented-init test as soon as there is a track and GetTrex finds a trex for every track id; "
-                  "C19_print_then_parse is the general converse of C01_tree for constructed trees (any tree of well-formed parts decodes "
-                  "from its encoding to itself), with print-then-parse lemmas for all in-range values of every leaf kind of an init "
-                  "(C19_box_roundtrip_* and C19LeafPPProofs: mvhd trex tkhd mdhd hdlr elng vmhd smhd nmhd sthd dref url stsd stts stsc "
-                  "stsz stco ftyp avcC hvcC, Visual/AudioSampleEntry prefixes); C19_built_fragmented_trex, C19_roundtrip_checker_sound "
-                  "and C19_roundtrip_partial (271 histories decided by computation, no hypothesis on the state) remain as independent "
+                  "File.AddChild's fragmented-init test as soon as there is a track and GetTrex finds a trex for every track id. "
+                  "FRAGMENTS (composition with C05, coq/c05 read-only): C19_init_trex (the decoded init holds for every track id the trex "
+                  "CreateTrex built: that id, description index 1, default duration/size/flags 0; ids pairwise different), "
+                  "C19_fragments_decode (every history, every track id T of the built init, CreateFragment(seq, T) + ANY history of "
+                  "AddFullSample/AddFullSampleToTrack: the encoded fragment, decoded, read through the trex GetTrex(T) finds in the DECODED "
+                  "init returns exactly the samples added; nothing through another track's trex), C19_fragments_decode_modes (all six add "
+                  "operations, one data mode per fragment), C19_fragments_decode_multi (CreateMultiTrackFragment over any duplicate-free id "
+                  "list, every track of the init through its own trex) -- at C05's structure level (wire view of trun/tfhd, sizes and "
+                  "positions of the other boxes), below 2 GiB. "
+                  "C19_print_then_parse is the general converse of C01_tree for constructed trees, with print-then-parse lemmas for all "
+                  "in-range values of every leaf kind of an init (C19_box_roundtrip_* and C19LeafPPProofs); C19_built_fragmented_trex, "
+                  "C19_roundtrip_checker_sound and C19_roundtrip_partial (271 histories decided by computation) remain as independent "
                   "confirmations, and roundtrip_ok + the hypotheses of C19_roundtrip are evaluated, extracted, on every correspondence "
-                  "case (all satisfy them). Still only explored (search on the real code): typed decoding of esds/dac3/dec3/wvtt/stpp "
-                  "(opaque payloads in C01's model; stpp and the records have their own theorems) and decoding media fragments against "
-                  "the init beyond the trex lookup. Refutations: mp4a sample rate for "
+                  "case. Still only explored (search on the real code): typed decoding of dac3/dec3/wvtt/stpp (opaque payloads in the "
+                  "snapshot of C01's model; stpp and the records have their own theorems) and the byte level of moof/mdat (C05's box "
+                  "codecs are proved for trun/tfhd only). Refutations: mp4a sample rate for "
                   "96000 Hz (known finding), one-byte elng tag, AddEmptyTrack on decoded inits (outside the quantifier).",
-    "level_note": "Trusted: Coq kernel, extraction (ExtrOcamlBasic), OCaml/Go glue; the SPS parsers are arguments of the model "
-                  "(their answers are taken from the real parsers in the correspondence; their correctness is C15's property); "
-                  "the box codec used for the tree is a frozen copy of C01's model (C19BoxModel.v, snapshot of c35b7dd), boxes "
-                  "it has no leaf for (hvcC, esds, dac3, dec3, wvtt, stpp) are opaque byte payloads written by C19's models; "
+    "level_note": "Trusted: Coq kernel, extraction (ExtrOcamlBasic), OCaml/Go glue; in C19_inv/_tracks/_descriptor_*/_roundtrip the SPS "
+                  "parsers are arguments of the model (their answers are taken from the real parsers in the correspondence); "
+                  "C19_descriptor_*_dims instantiate them with C15's parser models (coq/c15, live import; compared here with the real "
+                  "parser's answer on every AVC/HEVC call of every case); C19_fragments_* rest on C05's fragment model (coq/c05, live "
+                  "import, tied to the code by C05's own correspondence) and C19_descriptor_aac_typed on C18's AudioSpecificConfig model "
+                  "(coq/c18, live import); the box codec used for the tree is a frozen copy of C01's model (C19BoxModel.v, snapshot of "
+                  "88f92e5), boxes it has no leaf for (dac3, dec3, wvtt, stpp) are opaque byte payloads written by C19's models; "
                   "C15Spec/C15HevcSpec serialisers + validity predicates generate the parameter sets (expected values come from "
                   "the generating field values); in-memory chroma/bit-depth values of an avcC with profile 66/77/88 are not part "
                   "of the box and compared modulo that; the correspondence is only as good as its generated histories.",
@@ -64,6 +86,25 @@ def build(ctx):
     return exe, model
 
 
+def run_model_par(model, cases, workers=4):
+    """The model driver is stateless between case lines: the lines are dealt to `workers` driver processes (round robin, so
+    that the expensive I lines are spread) and the verdicts are put back in case order."""
+    from concurrent.futures import ThreadPoolExecutor
+    lines = cases.splitlines()
+    if len(lines) < 4 * workers:
+        return common.run_model(model, cases)
+    parts = [lines[i::workers] for i in range(workers)]
+    with ThreadPoolExecutor(max_workers=workers) as ex:
+        outs = list(ex.map(lambda p: common.run_model(model, "\n".join(p) + "\n"), parts))
+    for p, o in zip(parts, outs):
+        if len(p) != len(o):
+            raise common.CheckError("model driver answered %d lines for %d cases" % (len(o), len(p)))
+    res = [None] * len(lines)
+    for w in range(workers):
+        res[w::workers] = outs[w]
+    return res
+
+
 def run(ctx):
     ctx.cov["trusted_base"] = common.TRUSTED_BASE_COMMON + [
         "model: coq/c19/C19Model.v is a hand transcription of mp4/initsegment.go (CreateEmptyInit, AddEmptyTrack, "
@@ -72,10 +113,15 @@ def run(ctx):
         "aac.AudioSpecificConfig.Encode (through the C13 bit-writer model), Dac3Box/Dec3Box.ChannelInfo",
         "model: coq/c19/C19RecModel.v is a hand transcription of avc.DecConfRec / hevc.DecConfRec Size, EncodeSW, Decode...DecConfRec",
         "model: coq/c19/C19TreeModel.v builds the init's box tree with the leaf/container constructors of coq/c01/C01Model.v "
-        "(coq/c19/C19BoxModel.v is a verbatim snapshot of C01's model at c35b7dd; its encoder is tied to the Go code by C19's byte "
+        "(coq/c19/C19BoxModel.v is a verbatim snapshot of C01's model at 88f92e5; its encoder is tied to the Go code by C19's byte "
         "comparison of InitSegment.Encode on every case, its decoder by C01's correspondence at that commit and by the search's "
-        "real-code round trip); "
-        "hvcC/esds/dac3/dec3/wvtt/stpp payloads are written by C19's own transcriptions",
+        "real-code round trip); esds is the typed leaf (CreateESDescriptor's values); "
+        "dac3/dec3/wvtt/stpp payloads are written by C19's own transcriptions",
+        "model: coq/c19/C19FragModel.v get_trex = MvexBox.GetTrex on a box tree, as the trex record of coq/c05/C05Model.v; the fragment "
+        "side of C19_fragments_* is C05's model (coq/c05/C05FragModel.v: Fragment building, Encode layout, GetFullSamples)",
+        "model: coq/c19/C19DimsProofs.v c15_avc_parser / c15_hevc_parser = C15's models of avc.ParseSPSNALUnit(sps,false) / "
+        "hevc.ParseSPSNALUnit + ImageSize projected to what Set{AVC,HEVC}Descriptor reads (coq/c15/C15Model.v, C15HevcModel.v)",
+        "model: coq/c18/C18Model.v encode_asc / decode_asc (AudioSpecificConfig), tied to C19Model.asc_encode through C18_writer_tie_asc",
         "generator: coq/c15/C15Spec.v (nalu_sps, nalu_pps, sps_valid, pps_valid) and coq/c15/C15HevcSpec.v (hnalu_sps, hnalu_pps, "
         "hsps_valid, hpps_valid), through the frozen copies coq/c19/C19Gen*.v, extracted into the C19 driver; the random choice "
         "of field values is a copy of ocaml/c15_driver.ml's",
@@ -90,7 +136,10 @@ def run(ctx):
         "model and the correspondence but not by the property search",
         "a history without AddEmptyTrack is not an init segment for any track: DecodeFile rejects a moov without trak; "
         "its round trip is evaluated at box level",
-        "AAC sampling frequencies are non-negative ints below 2^24",
+        "AAC sampling frequencies are non-negative ints (C19_roundtrip_inputs), below 2^23 in C19_descriptor_aac_typed (the doubled "
+        "extension frequency of the HE types must fit the 24-bit escape), below 2^24 in the generated histories",
+        "fragments (C05's hypotheses): Sample.Size = len(Data), decode times consistent with the durations, fragment below 2 GiB, "
+        "fewer than 2^32 add operations",
         "generated parameter sets: picture sizes below 2^16 (16-bit fields of the sample entry), bit depths 8..14 (an HEVC SPS "
         "with 16-bit samples, bit_depth_minus8 = 8, does not fit the 3-bit hvcC field: outside the scope), fewer than 32 SPS / "
         "256 PPS per call, NAL units shorter than 2^16 bytes",
@@ -130,7 +179,7 @@ def run(ctx):
     if rc != 0:
         raise common.CheckError("harness corr failed: " + e[-1000:])
     lines = cases.splitlines()
-    res = common.run_model(model, cases)
+    res = run_model_par(model, cases)
     mism = [l for l in res if not l.startswith("OK ")]
     hyp = sum(1 for l in res if l.endswith(" hyp"))
     nohyp = sum(1 for l in res if l.endswith(" nohyp"))
@@ -209,8 +258,12 @@ def run(ctx):
                        "histories: ids/trex/next id/contiguity, handler+media header table, language rule, data reference index, trak tree shape, "
                        "descriptor contents vs supplied (dimensions, every avcC/hvcC field and the codec string vs the field values the SPS was generated from, "
                        "parameter sets byte for byte, ASC decoded back; on the built AND on the decoded init), Encode = EncodeSW, encode -> DecodeFile / DecodeFileSR -> equal "
-                       "Info dump + equal re-encoding + IsFragmented, single-track and multi-track fragments with samples decoded "
-                       "against the init and read back through the trex" % (n, n))
+                       "Info dump + equal re-encoding + IsFragmented; for EVERY track of every init: trex of the decoded init = (id, 1, 0, 0, 0), a fragment "
+                       "CreateFragment(seq, id) with a generated add-history (1-5 samples, uniform runs that OptimizeTfhdTrun folds into tfhd defaults "
+                       "and non-uniform ones, AddFullSample / AddFullSampleToTrack incl. refused foreign ids / AddSample + AddSampleToTrack / "
+                       "AddSamples with the data written by the caller, 64-bit decode times) encoded after the init, DecodeFile, GetFullSamples "
+                       "through the DECODED init's trex = the samples handed in, nothing through another track's trex; one multi-track "
+                       "fragment over all ids with interleaved additions" % (n, n))
 
 
 def replay(ctx, path):
